@@ -482,6 +482,24 @@ package res
 //@       || (r.rtype == "call" && !(r.method == "new" && r.h.New != nil) && r.h.Call[r.method] == nil && r.h.Call["*"] == nil)
 //@       || (r.rtype == "auth" && r.h.Auth[r.method] == nil && r.h.Auth["*"] == nil)), ninvoked == old(ninvoked))
 //@
+//@ # ---- registration of method handlers (C05: "for call and auth the named method, else the * method"): the option stores the
+//@ # handler under exactly the method name it was given, once; other methods keep their handlers
+//@ func Call$1(hs *Handler)
+//@   requires hs != nil
+//@   modifies res.Handler.Call, alloc, map:res.Handler.Call
+//@   may_panic
+//@   strkeys pairwise
+//@   ensures stored: mapHasId(hs.Call, keyid(method)) && ref(mapValId(hs.Call, keyid(method))) == ref(h)
+//@   ensures others: forallint(k, imp(k != keyid(method) && old(mapHasId(hs.Call, k)), mapHasId(hs.Call, k) && ref(mapValId(hs.Call, k)) == old(ref(mapValId(hs.Call, k)))))
+//@   ensures_on_panic duplicate: old(mapHasId(hs.Call, keyid(method)))
+//@ func Auth$1(hs *Handler)
+//@   requires hs != nil
+//@   modifies res.Handler.Auth, alloc, map:res.Handler.Auth
+//@   may_panic
+//@   strkeys pairwise
+//@   ensures stored: mapHasId(hs.Auth, keyid(method)) && ref(mapValId(hs.Auth, keyid(method))) == ref(h)
+//@   ensures others: forallint(k, imp(k != keyid(method) && old(mapHasId(hs.Auth, k)), mapHasId(hs.Auth, k) && ref(mapValId(hs.Auth, k)) == old(ref(mapValId(hs.Auth, k)))))
+//@   ensures_on_panic duplicate: old(mapHasId(hs.Auth, keyid(method)))
 //@ # ---- decoding helpers (C05): the whole stored params / token text is handed to the decoder, nothing else; a failure is a panic (answered by executeHandler)
 //@ func (r *Request) ParseParams(p interface{})
 //@   requires r != nil
@@ -848,6 +866,15 @@ package res
 //@   ensures prefix: bytes(out)[0:7] == "{\"rid\":"
 //@   ensures body: forall(k, 0, jlen(string(r)), bytes(out)[7+k] == jchar(string(r), k))
 //@   ensures suffix: bytes(out)[len(out)-1] == '}'
+//@ # decoding a reference: whatever encoding/json decodes (T4); a text that fails to decode leaves the reference untouched
+//@ func (r *Ref) UnmarshalJSON(b []byte) (err error)
+//@   requires r != nil
+//@   modifies all
+//@   ensures failed: imp(!isNil(err), same(*r, old(*r)))
+//@ func (r *SoftRef) UnmarshalJSON(b []byte) (err error)
+//@   requires r != nil
+//@   modifies all
+//@   ensures failed: imp(!isNil(err), same(*r, old(*r)))
 //@ func (r SoftRef) MarshalJSON() (out []byte, err error)
 //@   dead src:return nil, err
 //@   replay_domain 3 "a\"\\."
@@ -1069,6 +1096,14 @@ package res
 //@       && imp(len(resources) == 0, ref(unbox(arg_data, "res.resetEvent").Resources) == 0) && imp(len(access) > 0, same(unbox(arg_data, "res.resetEvent").Access, access))
 //@       && imp(len(access) == 0, ref(unbox(arg_data, "res.resetEvent").Access) == 0)
 //@   ensures silent: imp(len(resources) == 0 && len(access) == 0, trn == old(trn))
+//@ # Reset announces exactly the lists it is given, and only when the state read is `started` (C09 / C03)
+//@ func (s *Service) Reset(resources []string, access []string)
+//@   requires s != nil && !isNil(s.nc)
+//@   modifies ghost.trn, ghost.trk, ghost.tra, ghost.pubn, ghost.lstate, alloc, res.resetEvent.Resources, res.resetEvent.Access
+//@   callback onError benign
+//@   ghost call LoadInt32#1 after :: set lstate = arg_res
+//@   ghost call Service.reset#1 before :: assert started.only: lstate == stateStarted
+//@   ghost call Service.reset#1 before :: assert as.given: same(arg_resources, resources) && same(arg_access, access)
 //@ ghostvar rsdef bool
 //@ func (s *Service) ResetAll()
 //@   requires s != nil && !isNil(s.nc) && muxOK(s.Mux)
@@ -1648,6 +1683,33 @@ package res
 //@   ghost call CompareAndSwapInt32#1 after :: assert start.transition: arg_old == stateStopped && arg_new == stateStarting
 //@   ghost call CompareAndSwapInt32#1 after :: set startcas = arg_res
 //@   ghost call Service.serve#1 before :: assert accepted.only: startcas
+//@ # ListenAndServe: the same state transition as Serve; the connection handed to serve is the one nats.Connect returned
+//@ trusted func nats.MaxReconnects(max int) (o nats.Option)
+//@   modifies alloc
+//@ trusted func nats.ReconnectHandler(cb nats.ConnHandler) (o nats.Option)
+//@   modifies alloc
+//@ trusted func nats.DisconnectHandler(cb nats.ConnHandler) (o nats.Option)
+//@   modifies alloc
+//@ trusted func nats.ClosedHandler(cb nats.ConnHandler) (o nats.Option)
+//@   modifies alloc
+//@ trusted func nats.Name(name string) (o nats.Option)
+//@   modifies alloc
+//@ trusted func nats.Connect(url string, options []nats.Option) (nc *nats.Conn, err error)
+//@   modifies alloc
+//@   ensures imp(isNil(err), nc != nil)
+//@ func (s *Service) ListenAndServe(url string, options []nats.Option) (err error)
+//@   thread init
+//@   requires s != nil && muxOK(s.Mux) && s.inChannelSize >= 0 && s.workerCount >= 0 && forallge(q, nextRef(), !chclosed[q])
+//@   requires path: pvalid0(s.Mux.path) && forall(k, 0, len(s.Mux.path), !wildAt(s.Mux.path, k))
+//@   requires ownR: imp(ref(s.resetResources) != 0, ownOK(s.resetResources))
+//@   requires ownA: imp(ref(s.resetAccess) != 0, ownOK(s.resetAccess))
+//@   modifies all
+//@   callback onError benign
+//@   ghost entry :: set startcas = false
+//@   ghost call CompareAndSwapInt32#1 after :: assert start.transition: arg_old == stateStopped && arg_new == stateStarting
+//@   ghost call CompareAndSwapInt32#1 after :: set startcas = arg_res
+//@   ghost call Connect#1 before :: assert accepted.only: startcas
+//@   ghost call Service.serve#1 before :: assert connected: isNil(err)
 //@ func (s *Service) serve(nc Conn) (rerr error)
 //@   thread init
 //@   requires s != nil && !isNil(nc) && muxOK(s.Mux) && s.inChannelSize >= 0 && s.workerCount >= 0 && forallge(q, nextRef(), !chclosed[q])
